@@ -8,6 +8,7 @@ import J5V.Conc.SchedRW
 import J5V.Conc.SchedRWSerial
 import J5V.Conc.CacheProofs
 import J5V.Conc.ClashProofs
+import J5V.Conc.CacheSched
 import J5V.Generated.LocksFacts
 /-!
 # C10 — shared codecs and schema caches are safe for concurrent use
@@ -670,5 +671,124 @@ theorem C10_name_clash_partial (rs : List Nat) (r : Nat) (hr : r < 6)
 /-- the exception is real and the hypothesis of the partial theorem is satisfiable on both sides -/
 example : (J5V.Conc.Clash.req (J5V.Conc.Clash.run [0, 1, 4]) 1).2 = true ∧ (J5V.Conc.Clash.req (J5V.Conc.Clash.run [3, 5, 2]) 3).2 = true ∧
     (J5V.Conc.Clash.req (J5V.Conc.Clash.run [3]) 0).2 = false := by decide
+
+/-! ## Any schedule of N goroutines through the cache: every call answers as it does alone
+
+`J5V.Conc.CacheSched`: goroutine `i` makes the calls `progs i` in order on one shared cache; a
+schedule is any list of goroutine numbers; the mutex is explicit (a goroutine scheduled while
+another one is inside `Schema` is blocked), and so is the mid-build state of the shared maps
+(`midBuild`) between the moment a call takes the mutex and the moment it finishes. -/
+
+open J5V.Conc.CacheSched in
+/-- **Concurrent = sequential = alone**, for every descriptor graph (recursive types, failing
+builds), every reachable start cache (fresh or warm), every number of goroutines with any request
+lists, every schedule (overlapping first use of one type included: the second caller blocks).
+With `s` the state after the schedule:
+(1) the answers in order of completion are the answers of ONE goroutine making the same requests in
+    that order (`seqRes`), and the maps as of the last completed call are those of that sequential run;
+(2) every goroutine's own log is its part of that history, and its requests so far + the ones left
+    are its program (nothing lost, duplicated or reordered);
+(3) every answer, of every goroutine, is the answer the same request gets alone on a fresh cache. -/
+theorem C10_concurrent_results_eq_sequential (G : Graph) (c0 : Cache) (hc : Reachable G c0)
+    (progs : Nat → List Nat) (sched : List Nat) :
+    let s := crun G (init c0 progs) sched
+    (s.hist.map (·.res) = seqRes G c0 (s.hist.map (·.req)) ∧ s.base = runReqs G c0 (s.hist.map (·.req))) ∧
+    (∀ i, s.log i = (s.hist.filter (fun h => h.thread = i)).map (fun h => (h.req, h.res)) ∧
+          (s.log i).map (·.1) ++ s.rem i = progs i) ∧
+    (∀ i d r, (d, r) ∈ s.log i → r = (schemaOf G emptyCache d).2) := by
+  intro s
+  have hinv : J5V.Conc.CacheSched.Inv G c0 progs s := inv_run G c0 progs sched _ (inv_init G c0 progs)
+  refine ⟨⟨hinv.res_eq, hinv.base_eq⟩, fun i => ⟨hinv.log_eq i, hinv.prog i⟩, ?_⟩
+  intro i d r hm
+  rw [hinv.log_eq i] at hm
+  obtain ⟨e, he, heq⟩ := List.mem_map.mp hm
+  have := hist_alone G c0 hc progs s hinv e (List.mem_filter.mp he).1
+  simp only [Prod.mk.injEq] at heq
+  rw [← heq.1, ← heq.2]
+  exact this
+
+open J5V.Conc.CacheSched in
+/-- Between calls (mutex free) the shared maps are a between-requests state (`Reachable`): what a
+goroutine reads from a schema it was handed is linked (`C10_no_unlinked_visible` applies) and a
+lookup at that moment answers as alone. -/
+theorem C10_concurrent_quiescent_reachable (G : Graph) (c0 : Cache) (hc : Reachable G c0)
+    (progs : Nat → List Nat) (sched : List Nat)
+    (hq : (crun G (init c0 progs) sched).holder = none) :
+    Reachable G (crun G (init c0 progs) sched).cache ∧
+    ∀ d, peek G (crun G (init c0 progs) sched) d = (schemaOf G emptyCache d).2 := by
+  have hinv : J5V.Conc.CacheSched.Inv G c0 progs _ := inv_run G c0 progs sched _ (inv_init G c0 progs)
+  have hb := hinv.base_eq
+  simp only [CState.base, hq] at hb
+  have hr : Reachable G (crun G (init c0 progs) sched).cache := by
+    rw [hb]; exact reachable_runReqs G c0 hc _
+  exact ⟨hr, fun d => alone_of_reachable G _ hr d⟩
+
+/-- three goroutines on the demo graph, fresh cache: 0 and 1 both start with `A` (mutually recursive
+with `B`), 1 is scheduled while 0 is inside the build (blocked), 2 asks for the failing `F` twice
+and for `E`; goroutine 0 then asks for `F` after 2's failed build was rolled back. -/
+def demoProgs : Nat → List Nat
+  | 0 => [0, 5]
+  | 1 => [0, 3]
+  | 2 => [5, 4, 5]
+  | _ => []
+
+def demoSched : List Nat := [0, 1, 2, 1, 0, 1, 2, 2, 1, 0, 2, 1, 1, 0, 0, 2, 2, 2, 2, 1, 1, 2, 2]
+
+open J5V.Conc.CacheSched in
+example : let s := crun demo (init emptyCache demoProgs) demoSched
+    s.log 0 = [(0, .ok), (5, .err)] ∧ s.log 1 = [(0, .ok), (3, .ok)] ∧
+    s.log 2 = [(5, .err), (4, .err), (5, .err)] ∧ s.holder = none ∧
+    s.hist.map (·.thread) = [0, 1, 0, 2, 2, 1, 2] ∧ (∀ i, i < 3 → s.rem i = []) := by decide
+
+open J5V.Conc.CacheSched in
+/-- The mutex is what makes it true: a lookup that reads the maps without it, while goroutine 0 is
+building `A`, answers "unlinked ref" where the same request alone succeeds (seeded change C10-m2). -/
+theorem C10_unlocked_lookup_differs :
+    peek demo (crun demo (init emptyCache demoProgs) [0]) 0 = .err ∧ (schemaOf demo emptyCache 0).2 = .ok := by
+  decide
+
+open J5V.Conc.CacheSched in
+/-- **No deadlock, no lost call** in the same machine, in every state any schedule reaches:
+(1) while some goroutine has a request left, some goroutine can move (the owner of the mutex, else
+    any goroutine with a request), and a goroutine that can move makes progress: its step starts or
+    finishes a call (`progress` = 2 × finished calls + 1 for a call in progress grows by one);
+(2) a goroutine that cannot move (blocked on the mutex, or done) changes nothing by being scheduled;
+(3) the owner of the mutex always has the call it is serving on its list, so the mutex is never
+    held by a goroutine that is done;
+(4) when nobody can move, the mutex is free and every goroutine has an answer for every request
+    of its program, in order. -/
+theorem C10_concurrent_no_deadlock (G : Graph) (c0 : Cache) (progs : Nat → List Nat) (sched : List Nat) :
+    let s := crun G (init c0 progs) sched
+    ((∃ i, s.rem i ≠ []) → ∃ j, enabled s j = true) ∧
+    (∀ j, enabled s j = true → (cstep G s j).progress = s.progress + 1) ∧
+    (∀ j, enabled s j = false → cstep G s j = s) ∧
+    (∀ j d b, s.holder = some (j, d, b) → s.rem j ≠ []) ∧
+    ((∀ j, enabled s j = false) → s.holder = none ∧ ∀ i, (s.log i).map (·.1) = progs i) := by
+  intro s
+  have hinv : J5V.Conc.CacheSched.Inv G c0 progs s := inv_run G c0 progs sched _ (inv_init G c0 progs)
+  refine ⟨fun ⟨i, hi⟩ => work_left_enabled s i hi, fun j hj => cstep_enabled G s j hj,
+    fun j hj => cstep_blocked G s j hj, fun j d b hh => holder_has_work G c0 progs s hinv j d b hh, ?_⟩
+  intro hnone
+  have hfree : s.holder = none := by
+    cases hh : s.holder with
+    | none => rfl
+    | some hd =>
+      obtain ⟨j, d, b⟩ := hd
+      have := hnone j
+      simp [enabled, hh] at this
+  refine ⟨hfree, fun i => ?_⟩
+  have hrem : s.rem i = [] := by
+    have := hnone i
+    simpa [enabled, hfree] using this
+  have := hinv.prog i
+  rw [hrem] at this
+  simpa using this
+
+open J5V.Conc.CacheSched in
+/-- on the demo schedule: nobody can move at the end, 7 calls finished, progress 14 -/
+example : let s := crun demo (init emptyCache demoProgs) demoSched
+    (∀ j, j < 4 → enabled s j = false) ∧ s.progress = 14 ∧
+    enabled (crun demo (init emptyCache demoProgs) [0, 1]) 1 = false ∧
+    enabled (crun demo (init emptyCache demoProgs) [0, 1]) 0 = true := by decide
 
 end J5V.Props.C10
